@@ -2,6 +2,7 @@ use crate::Outcome;
 use serde_json::Value;
 
 mod c08;
+mod c14;
 mod c20;
 
 type SearchResult = (u64, Option<(Value, Outcome)>);
@@ -22,6 +23,7 @@ fn run_inner(case: &str, args: &Value) -> Option<Outcome> {
         "c20_merge" => Some(c20::merge(args)),
         "c08_num" | "c08_num_search_maximum" | "c08_num_search_minimum" | "c08_num_search_multiple_of" => Some(c08::num(args)),
         "c08_len" => Some(c08::len(args)),
+        "c14_pos" => Some(c14::pos(args)),
         _ => None,
     }
 }
@@ -33,6 +35,7 @@ pub fn search(case: &str, seed: u64, open: &[String]) -> Option<SearchResult> {
         "c08_num_search_minimum" => Box::new(c08::num_inputs("minimum", seed)),
         "c08_num_search_multiple_of" => Box::new(c08::num_inputs("multiple_of", seed)),
         "c08_len" => Box::new(c08::len_inputs(seed)),
+        "c14_pos" => Box::new(c14::pos_inputs(seed)),
         _ => return None,
     };
     let mut tried = 0u64;
